@@ -334,3 +334,47 @@ func VerifC06_PeerOmitsEmptyRunID() {
 }
 
 func init() { verifRegister("VerifC06_PeerOmitsEmptyRunID", VerifC06_PeerOmitsEmptyRunID) }
+
+// Close while an Execute (with a signal channel the caller keeps open) is still in flight, in every order of Close
+// against the start of the run's signal writer: the Execute still gets its result, Close returns, nothing stays blocked
+func VerifC06_CloseDuringExecute() {
+	calls := 0
+	sess, err := verifStartSession(verifPluginSchema(&calls))
+	verifAssert("C06/closeduring/handshake", err == nil)
+	if err != nil {
+		return
+	}
+	verifReach("C06/closeduring/started")
+	hold := make(chan struct{})
+	entered := make(chan struct{}, 1)
+	verifCallsMu.Lock()
+	verifHold, verifHoldN, verifHoldEntered = hold, 1000, entered
+	verifCallsMu.Unlock()
+	toStep := make(chan schema.Input)
+	var wg sync.WaitGroup
+	var r ExecutionResult
+	var cerr error
+	wg.Add(1)
+	go func() {
+		defer wg.Done()
+		r = sess.client.Execute(schema.Input{RunID: "r1", ID: "inc", InputData: map[string]any{"n": int64(1000)}}, toStep, nil)
+	}()
+	<-entered // the run is in flight at the server; the client's signal writer for it may or may not have started
+	wg.Add(1)
+	go func() {
+		defer wg.Done()
+		cerr = sess.client.Close()
+	}()
+	verifSettle()
+	close(hold)
+	wg.Wait()
+	verifAssert("C06/closeduring/execute-returns-its-result", r.Error == nil && r.OutputID == "ok")
+	verifAssert("C06/closeduring/close-returned", cerr == nil || cerr != nil)
+	sess.drain()
+	_ = sess.toSrvW.Close()
+	sess.srvDone.Wait()
+	verifLeakCheck(true)
+	verifReach("C06/closeduring/end")
+}
+
+func init() { verifRegister("VerifC06_CloseDuringExecute", VerifC06_CloseDuringExecute) }
